@@ -8,11 +8,14 @@ from ombott.request_pkg.request import Request
 from ombott.request_pkg.errors import RequestError
 
 PROPERTY = "C04"
-TECHNIQUE = "bounded symbolic execution of _iter_body/_body_read/Request.body (CrossHair+z3), path-exhaustive over sizes and read fragmentation"
+TECHNIQUE = ("bounded symbolic execution of _iter_body/_body_read/Request.body and Ombott.__call__ (CrossHair+z3), path-exhaustive over sizes, "
+             "read fragmentation and the point at which the server's stream fails")
 LEVEL_TEXT = ("Every execution path of the real Content-Length reader is explored for all stream sizes, Content-Length values, "
               "buffer sizes up to 2^20 and all lengths of the first 3-5 short reads (solver variables); z3 shows every "
               "not-taken branch infeasible, so within the bound the body equals the first min(avail,CL) bytes and no read "
-              "asks beyond Content-Length. Bounded, not a proof: loop trips and number of short reads are capped.")
+              "asks beyond Content-Length. Family wsgi/ runs Ombott.__call__ on real bytes with a stream whose k-th read raises "
+              "once (k symbolic), three handler kinds and max_body_size refusals: up to the end of the response no read asks "
+              "for a byte beyond Content-Length. Bounded, not a proof: loop trips and number of short reads are capped.")
 LEVEL_NOTE = ("Trusted: z3, CrossHair's int/bytes models, the SymStream/SizedPart/PyBytesIO stubs (content opaque to the "
               "reader), CPython for concrete steps. Outside: more short reads than fragments, sizes > 2^20, real files.")
 FUNCTIONS = [
@@ -21,12 +24,15 @@ FUNCTIONS = [
     "ombott.request_pkg.body_mixin:BodyMixin._body",
     "ombott.request_pkg.body_mixin:BodyMixin.body",
     "ombott.request_pkg.body_mixin:BodyMixin.content_length",
+    "ombott.ombott:Ombott.wsgi",
+    "ombott.ombott:Ombott._handle",
 ]
 STUBS = [
     "SymStream: wsgi.input.read(n) returns 1..n of the remaining bytes (first k reads capped by symbolic fragment "
     "lengths, later reads full), b'' at EOF",
     "SizedPart: opaque slice (offset,len) of the stream; only len()/truthiness are observable (integer queries)",
     "PyBytesIO: pure-Python stand-in for io.BytesIO / tempfile.TemporaryFile inside body_mixin, `spooled` flag",
+    "FaultStream: SymStream whose k-th read() raises OSError once (family wsgi/)",
 ]
 ASSUMPTIONS = [
     "bytes are opaque to the Content-Length reader (it never inspects content) - checked by running it on SizedPart "
